@@ -30,8 +30,8 @@
 (*                                                                         *)
 (* Behaviour switches (constants) select the transitions of the tree as it   *)
 (* is: FixA (skip_to_end does not poison the ticket dispenser; pulls check   *)
-(* `completed` before reserving), FixH (a panic inside the critical section  *)
-(* sets `completed`), OrdCurrent (ordering of AtomicCounter::current).       *)
+(* `completed` after taking their ticket), FixH (a panic inside the critical *)
+(* section sets `completed`), OrdCurrent (ordering of AtomicCounter::current)*)
 (***************************************************************************)
 EXTENDS Props, HB, TLC, Json
 
@@ -113,7 +113,7 @@ PullKind(t) ==
     [] op[t].k = "chunk" -> "o"
     [] OTHER -> "b"
 Want(t) == IF PullKind(t) = "s" THEN 1 ELSE op[t].n
-StartPc == IF FixA THEN "chk" ELSE "res"
+StartPc == "res"
 
 RECURSIVE VisitSeq(_, _, _, _, _, _)
 VisitSeq(m, t, b, ps, j, withIdx) ==
@@ -188,13 +188,13 @@ Call(t, o) ==
   /\ o.k \in OwnerOnly => buf[0] = 0
   /\ CallBody(t, o)
 
-\* [FixA] the pull first looks at `completed` and reports the end without taking a ticket
+\* [FixA] having taken its ticket, the pull looks at `completed` and reports the end if it is set
 Chk(t) ==
   /\ pc[t] = "chk"
   /\ hb' = HbLoad(hb, t, "c", "SeqCst")
   /\ IF completed
        THEN EndPull(t, 0, << >>)
-       ELSE pc' = [pc EXCEPT ![t] = "res"] /\ UNCHANGED <<res, mon, left>>
+       ELSE pc' = [pc EXCEPT ![t] = "ly"] /\ UNCHANGED <<res, mon, left>>
   /\ Sched(t)
   /\ UNCHANGED <<cf, reserved, yielded, completed, taken, calls, alive, op, tk, got, polled, buf, nops>>
 
@@ -203,7 +203,7 @@ Reserve(t) ==
   /\ tk' = [tk EXCEPT ![t] = reserved]
   /\ reserved' = Wrap(reserved + Want(t))
   /\ got' = [got EXCEPT ![t] = << >>]
-  /\ pc' = [pc EXCEPT ![t] = "ly"]
+  /\ pc' = [pc EXCEPT ![t] = IF FixA THEN "chk" ELSE "ly"]
   /\ hb' = HbRmw(hb, t, "r", "AcqRel")
   /\ ClearPolled
   /\ Sched(t)
@@ -433,6 +433,7 @@ Inv_C05 == Holds(mon, "C05")
 Inv_C06 == Holds(mon, "C06")
 Inv_C07_Mutex == "Mutex" \notin mon.flags
 Inv_C07_NoRace == ~hb.race
+Inv_C08 == Holds(mon, "C08")
 Inv_C10 == Holds(mon, "C10")
 Inv_C11 == Holds(mon, "C11")
 Inv_C12 == Holds(mon, "C12")
@@ -445,6 +446,15 @@ Inv_TicketIsPosition ==
 Inv_NoWrap == reserved < MOD \div 2 /\ yielded < MOD \div 2
 \* C09 / C18: with the poll reduction, a hang of the real code is a deadlock of this model
 \* (checked with CHECK_DEADLOCK TRUE; the terminal state stutters explicitly)
+
+
+\* counterexample export: the violating behaviour's programs and schedule, for replay on the real crate
+Cex(P) == P \/ (PrintT(<<"CEX", ToJson(h)>>) /\ FALSE)
+NoFlagsX == Cex(NoFlags)
+SpecGen == Init /\ [][\E t \in T : Step(t) \/ Stop(t)]_vars
+Inv_C07_NoRaceX == Cex(Inv_C07_NoRace)
+Stuck == ~Terminal /\ ~ENABLED (\E t \in T : Step(t) \/ Stop(t))
+Inv_C09_NoHangX == Cex(~Stuck)
 
 GenEmit == Terminal => PrintT(<<"SCN", ToJson(h)>>)
 =============================================================================
